@@ -221,13 +221,18 @@ def torch_pipeline(ctx):
         if lst.op == "sym":
             attr_roles["post"] = lst.args[0]
         for tests, leaf in cc.strip_cond(y):
-            none_branch = any(lbl == "T" and t.op == "cmp" and t.args[0] == "is" and t.args[2] == S.NONE for lbl, t in tests)
+            # the `is None` test that decides the no-computer fallback is the one on the object that is otherwise applied to the signal
+            applied = {("self" + x.args[0]) for _t, lf in cc.strip_cond(y) for x in [lf] if x.op == "call" and str(x.args[0]).startswith(".") and len(x.args) == 3
+                       and x.args[1] == S.sym(g.params[0])}
+            def _is_comp_test(t):
+                return t.op == "cmp" and t.args[0] == "is" and t.args[2] == S.NONE and (not applied or (t.args[1].op == "sym" and t.args[1].args[0] in applied))
+            none_branch = any(lbl == "T" and _is_comp_test(t) for lbl, t in tests)
             if none_branch:
                 ok = cc.is_call(leaf, ".unsqueeze") and len(leaf.args) == 3 and leaf.args[2] == S.ONE
                 ctx.check(ok, R, g, node, "without a computer the samples are stored as a column (unsqueeze(1))",
                           "the no-computer fallback is not signal.unsqueeze(1): %s" % _short(leaf))
                 p = leaf.args[1] if ok else None
-                comp_attr = [t.args[1] for lbl, t in tests if t.op == "cmp" and t.args[0] == "is"][0]
+                comp_attr = [t.args[1] for lbl, t in tests if _is_comp_test(t)][0]
                 if comp_attr.op == "sym":
                     attr_roles["computer"] = comp_attr.args[0]
             else:
@@ -456,14 +461,37 @@ def exclusions(ctx):
     }
     n_exits = 0
     seen = set()
+    # locals bound once to an expression stand for it in the guards (options.min_duration read into a local before the loop ...)
+    once = {}
+    for n_ in f.body_nodes():
+        if isinstance(n_, ast.Assign) and len(n_.targets) == 1 and isinstance(n_.targets[0], ast.Name):
+            once.setdefault(n_.targets[0].id, []).append(n_.value)
+        elif isinstance(n_, ast.Assign) and len(n_.targets) == 1 and isinstance(n_.targets[0], ast.Tuple) and isinstance(n_.value, ast.Tuple) \
+                and len(n_.targets[0].elts) == len(n_.value.elts):
+            for t_, v_ in zip(n_.targets[0].elts, n_.value.elts):
+                if isinstance(t_, ast.Name):
+                    once.setdefault(t_.id, []).append(v_)
+
+    def expand(test):
+        names, attrs_, todo, done = set(), set(), [test], set()
+        while todo:
+            e = todo.pop()
+            for x in ast.walk(e):
+                if isinstance(x, ast.Name):
+                    names.add(x.id)
+                    if x.id in once and len(once[x.id]) == 1 and x.id not in done and x.id not in (uid, buff, samp, dur):
+                        done.add(x.id)
+                        todo.append(once[x.id][0])
+                elif isinstance(x, ast.Attribute):
+                    attrs_.add(x.attr)
+        return names, attrs_
     for n in ast.walk(loop):
         if isinstance(n, (ast.Continue, ast.Break, ast.Return, ast.Raise)) and n is not loop:
             n_exits += 1
             guards = [a for a in astq.ancestors(pm, n) if isinstance(a, ast.If) and _within(loop, a)]
             ok = False
             for gi in guards:
-                names = {x.id for x in ast.walk(gi.test) if isinstance(x, ast.Name)}
-                attrs_ = {x.attr for x in ast.walk(gi.test) if isinstance(x, ast.Attribute)}
+                names, attrs_ = expand(gi.test)
                 for rname, pred in reasons.items():
                     if pred(names, attrs_):
                         ok = True
@@ -552,7 +580,7 @@ def config_syntax(ctx):
             ok_open = bool(hs) and set(hs) <= {"IOError", "OSError", "FileNotFoundError"} and falls_back
     ctx.check(ok_open, R, ct, tries[0] if tries else MISSING(ct.node),
               "the argument is tried as a file path and otherwise used as the inline string",
-              "_config_type no longer falls back to the inline string when the argument is not a readable path")
+              "_config_type no longer falls back to the inline string when the argument is not a readable path", structural=True)
     loads = [c for c in astq.func_calls(ct) if astq.is_name(c.func, "_load_config")]
     def _is_text(a_):
         # the parameter itself, or a local that only ever holds the parameter or what was read from the opened file
